@@ -2,6 +2,9 @@
 import json, sys
 pid = sys.argv[1]
 n = sys.argv[2] if len(sys.argv) > 2 else "2"
+sfx = sys.argv[3] if len(sys.argv) > 3 else ""
+avoid = sys.argv[4] if len(sys.argv) > 4 else ""
+wt = pid + sfx
 rec = None
 for l in open('/verif/properties.jsonl'):
     r = json.loads(l)
@@ -9,10 +12,10 @@ for l in open('/verif/properties.jsonl'):
         rec = r
 print(f"""You are helping to test how well a verification effort can detect subtle regressions in the Python package
 wannier-berri (Wannier interpolation code). You have your own scratch git worktree of the repository at
-/tmp/wt/{pid} (a checkout of the current HEAD). Work ONLY inside /tmp/wt/{pid} and /tmp/wt_out/{pid}. Do not read or
-touch /repo, /verif or /root/.vp. The interpreter is /venv/bin/python (run things from /tmp/wt/{pid} so that
+/tmp/wt/{wt} (a checkout of the current HEAD). Work ONLY inside /tmp/wt/{wt} and /tmp/wt_out/{wt}. Do not read or
+touch /repo, /verif or /root/.vp. The interpreter is /venv/bin/python (run things from /tmp/wt/{wt} so that
 `import wannierberri` resolves to the worktree; check with
-`cd /tmp/wt/{pid} && /venv/bin/python -c "import wannierberri; print(wannierberri.__file__)"`). There is no network.
+`cd /tmp/wt/{wt} && /venv/bin/python -c "import wannierberri; print(wannierberri.__file__)"`). There is no network.
 
 Here is a semantic property that wannier-berri is supposed to satisfy (JSON record):
 
@@ -22,7 +25,7 @@ TASK: produce {n} DIFFERENT, independent, realistic source changes to the packag
 such that each change, applied alone to the clean worktree:
   1. still imports/compiles,
   2. still passes the existing test-suite — at minimum the test files that exercise the touched code must pass
-     (run them: e.g. `cd /tmp/wt/{pid} && /venv/bin/python -m pytest -q -p no:cacheprovider -x tests/test_XXX.py`; the full suite
+     (run them: e.g. `cd /tmp/wt/{wt} && /venv/bin/python -m pytest -q -p no:cacheprovider -x tests/test_XXX.py`; the full suite
      takes ~40 minutes serially, so choose relevant files, but be honest: state exactly which tests you ran; tests known to fail
      on the clean tree are test_vaspspn, test_sitesym_Fe*, *Mn3Sn*, test_create_w90files_Fe_222[False-False] — ignore those),
   3. BREAKS the property above (violates its statement for some input / schedule / history),
@@ -31,20 +34,20 @@ such that each change, applied alone to the clean worktree:
      Prefer changes that need something SPECIFIC to manifest: an unusual input (odd size, degenerate values, non-default option),
      a particular interleaving / completion order, a multi-step sequence of operations, a crash/restart at a particular point,
      or two cooperating edits at different sites that each look fine alone.
-For each change also write a small stand-alone demonstration program (plain python script, exit code 0 = property holds,
+{("Earlier rounds already produced the following changes; yours must use DIFFERENT mechanisms and, where possible, different functions/files among the anchors: " + avoid + chr(10)) if avoid else ""}For each change also write a small stand-alone demonstration program (plain python script, exit code 0 = property holds,
 non-zero = property violated, printing what it observed) that FAILS with the change applied and PASSES on the clean worktree.
 The demonstration must exercise the real package code (import wannierberri from the worktree), run in under ~2 minutes,
 need no network, and must not depend on files outside the worktree (it may use tests/data and build small models, e.g. via
 wannierberri.models / pythtb / tbmodels, or call the anchored functions directly with synthetic inputs; mocking an external
 library such as ray with a small stand-in obeying its documented contract is fine if the schedule matters).
 
-DELIVERABLES — for change k = 1..{n} create the directory /tmp/wt_out/{pid}/m<k>/ containing:
-  - patch.diff : output of `git -C /tmp/wt/{pid} diff` with ONLY that change applied (must apply with `git apply` to a clean checkout),
+DELIVERABLES — for change k = 1..{n} create the directory /tmp/wt_out/{wt}/m<k>/ containing:
+  - patch.diff : output of `git -C /tmp/wt/{wt} diff` with ONLY that change applied (must apply with `git apply` to a clean checkout),
   - demo.py    : the demonstration (run as `cd <worktree> && /venv/bin/python /path/to/demo.py`),
   - meta.json  : {{"property": "{pid}", "summary": "<one line: what was changed>", "needs_to_manifest": "<what specific input/
                   schedule/sequence is needed>", "files_touched": [...], "tests_run": ["<pytest command>: <result line>", ...],
                   "demo_clean": "<exit code + last line on clean tree>", "demo_mutated": "<exit code + last line with the change>"}}
-Before finishing: verify each patch applies to a clean tree (`git -C /tmp/wt/{pid} stash` or `git checkout -- wannierberri` then
-`git apply`), re-run the demo both ways, and leave the worktree CLEAN (`git -C /tmp/wt/{pid} checkout -- .`; remove files you
+Before finishing: verify each patch applies to a clean tree (`git -C /tmp/wt/{wt} stash` or `git checkout -- wannierberri` then
+`git apply`), re-run the demo both ways, and leave the worktree CLEAN (`git -C /tmp/wt/{wt} checkout -- .`; remove files you
 created inside it). Do not commit anything. Keep going until the deliverables exist and are verified; then reply with a
 short summary (one paragraph per change) — no need to paste the diffs.""")
